@@ -40,6 +40,7 @@ type c18Scn struct {
 	Buf       int         `json:"buf"`
 	SlowEst   bool        `json:"slow_est,omitempty"` // the Established callback takes a few milliseconds
 	Push      bool        `json:"push,omitempty"`     // an application goroutine keeps sending to every established client through its ServerChannel
+	NoBacklog bool        `json:"no_backlog,omitempty"` // the queue between acceptors and consumer has no buffer (Backlog 0): a pure hand-off
 }
 
 const (
@@ -124,6 +125,9 @@ func newC18Server(scn *c18Scn) (*c18Server, error) {
 	cfg.EncryptOpts = []lime.SessionEncryption{lime.SessionEncryptionNone}
 	cfg.ChannelBufferSize = scn.Buf
 	cfg.Backlog = 4
+	if scn.NoBacklog {
+		cfg.Backlog = 0
+	}
 	cfg.Authenticate = func(ctx context.Context, id lime.Identity, a lime.Authentication) (*lime.AuthenticationResult, error) {
 		if id.Name == "bad" {
 			return lime.UnknownAuthenticationResult(), nil
@@ -783,7 +787,7 @@ func maxInt(a, b int) int {
 func runC18(env *Env) error {
 	env.Header = "From Coq Require Import List Bool Arith.\nImport ListNotations.\nFrom Lime Require Import Base.Res Life.Handler Life.Server Corr.C18.\n"
 	env.ShardSize = 100
-	env.Rule = "real Server, each scenario in its own process: (startstop) ListenAndServe and Close racing at start-up, 1-3 listeners of every kind, repeated; (gated) Close while the consumer is held before its select / while an acceptor holds an accepted transport (build-tag gates); (sessions) 1-8 clients over in-process, TCP and WebSocket in the phases idle, after traffic, sending while Close runs, stalled mid-handshake, failed authentication, finished earlier, vanished earlier, connecting while Close runs. Non-trivial: a gated scenario, a start-up race with two or more listeners, or at least two clients. Distinct by printed scenario."
+	env.Rule = "real Server, each scenario in its own process: (startstop) ListenAndServe and Close racing at start-up, 1-3 listeners of every kind, repeated; (gated) Close while the consumer is held before its select / while an acceptor holds an accepted transport (build-tag gates); (sessions) 1-8 clients over in-process, TCP and WebSocket in the phases idle, after traffic, sending while Close runs, stalled mid-handshake, failed authentication, finished earlier, vanished earlier, connecting while Close runs; the queue between acceptors and consumer with 4 slots or none (Backlog 0). Non-trivial: a gated scenario, a start-up race with two or more listeners, or at least two clients. Distinct by printed scenario."
 	var rc c18Case
 	if ok, err := env.ReplayDesc(&rc); err != nil {
 		return err
@@ -802,6 +806,10 @@ func runC18(env *Env) error {
 	for _, k := range []string{"inproc", "tcp", "ws"} {
 		scns = append(scns, c18Scn{Kind: "gated", Gate: "close-before-consume", Listeners: []string{k}, Iter: env.Pick(6, 30), Buf: 4})
 		scns = append(scns, c18Scn{Kind: "gated", Gate: "close-while-holding", Listeners: []string{k}, Iter: env.Pick(3, 12), Buf: 4})
+		scns = append(scns, c18Scn{Kind: "gated", Gate: "close-while-holding", Listeners: []string{k}, Iter: env.Pick(2, 8), Buf: 4, NoBacklog: true})
+		scns = append(scns, c18Scn{Kind: "gated", Gate: "close-before-consume", Listeners: []string{k}, Iter: env.Pick(2, 8), Buf: 4, NoBacklog: true})
+		scns = append(scns, c18Scn{Kind: "sessions", Listeners: []string{k}, Buf: 4, NoBacklog: true,
+			Clients: []c18Client{{Kind: k, Phase: "connecting"}, {Kind: k, Phase: "connecting"}, {Kind: k, Phase: "idle"}, {Kind: k, Phase: "connecting"}}})
 	}
 	all := []string{"inproc", "tcp", "ws"}
 	phases := []string{"idle", "traffic", "racing", "stalled", "authfail", "finished", "gone", "connecting"}
@@ -822,7 +830,7 @@ func runC18(env *Env) error {
 	nmix := env.Pick(14, 80)
 	for m := 0; m < nmix; m++ {
 		n := 2 + env.Rng.Intn(env.Pick(4, 7))
-		sc := c18Scn{Kind: "sessions", Listeners: all, Buf: []int{0, 1, 4, 16}[env.Rng.Intn(4)], DelayUs: env.Rng.Intn(3) * 200, SlowEst: m%2 == 0, Push: m%3 == 0}
+		sc := c18Scn{Kind: "sessions", Listeners: all, Buf: []int{0, 1, 4, 16}[env.Rng.Intn(4)], DelayUs: env.Rng.Intn(3) * 200, SlowEst: m%2 == 0, Push: m%3 == 0, NoBacklog: m%4 == 1}
 		for i := 0; i < n; i++ {
 			sc.Clients = append(sc.Clients, c18Client{Kind: all[env.Rng.Intn(3)], Phase: phases[env.Rng.Intn(len(phases))], Msgs: env.Rng.Intn(4)})
 		}
@@ -851,6 +859,9 @@ func runC18(env *Env) error {
 		}
 		if c.Scn.Push {
 			env.Count("server-pushes-while-closing")
+		}
+		if c.Scn.NoBacklog {
+			env.Count("backlog=0")
 		}
 		for _, cl := range c.Scn.Clients {
 			env.Count("phase=" + cl.Phase)
